@@ -20,7 +20,27 @@ sys.path.insert(0, HERE)
 from pyvc import driver                                  # noqa: E402
 from pyvc.driver import TERMINATION                      # noqa: E402
 
-LEDGER = os.path.join(HERE, 'baseline', 'obligations.json')
+LEDGER_DIR = os.path.join(HERE, 'baseline')
+
+
+def ledger_path(prop, tier):
+    return os.path.join(LEDGER_DIR, f"{prop}.{tier}.txt.gz")
+
+
+def load_ledger(prop, tier):
+    import gzip
+    try:
+        with gzip.open(ledger_path(prop, tier), 'rt') as f:
+            return set(l.rstrip('\n') for l in f if l.strip())
+    except FileNotFoundError:
+        return set()
+
+
+def save_ledger(prop, tier, oids):
+    import gzip
+    os.makedirs(LEDGER_DIR, exist_ok=True)
+    with gzip.GzipFile(ledger_path(prop, tier), 'wb', mtime=0) as g:
+        g.write(("\n".join(sorted(oids)) + "\n").encode())
 KNOWN = os.path.join(HERE, 'known_findings.json')
 
 TRUSTED_BASE = [
@@ -94,8 +114,7 @@ def main(argv=None):
 
 
 def conclude(prop, pack, pack_name, a, seed, t0, results, params_of, extra_cov=None):
-    ledger_all = load_json(LEDGER, {})
-    ledger = set(ledger_all.get(prop, {}).get(a.tier, []))
+    ledger = load_ledger(prop, a.tier)
     known = load_json(KNOWN, {})
     bounded_h = set(getattr(pack, 'BOUNDED_HARNESSES', ()))
 
@@ -209,10 +228,9 @@ def conclude(prop, pack, pack_name, a, seed, t0, results, params_of, extra_cov=N
         if violations or crashes or undecided or undecided_units:
             print("baseline NOT updated: run is not green")
         else:
-            ledger_all.setdefault(prop, {})[a.tier] = sorted(o for o, (st, b) in obligations.items() if st == 'proved')
-            with open(LEDGER, 'w') as f:
-                json.dump(ledger_all, f, indent=0, sort_keys=True)
-            print(f"baseline updated: {len(ledger_all[prop][a.tier])} obligations")
+            proved = [o for o, (st, b) in obligations.items() if st == 'proved']
+            save_ledger(prop, a.tier, proved)
+            print(f"baseline updated: {len(proved)} obligations")
 
     status = 0
     if crashes:
